@@ -679,6 +679,8 @@ def run(chk):   # noqa
     _ringmark_rule(chk, prog)
     _stackarg_rule(chk, prog, S)
     _cbstate_rule(chk, prog)
+    _markpath_rule(chk, prog)
+    _stacklocal_rule(chk, prog, S)
 
 
 def _threadedmark_rule(chk, prog):
@@ -1071,3 +1073,118 @@ def _cbstate_rule(chk, prog):
                               "nothing else keeps that object alive - a collection frees it and the operation goes on using it" % (
                                   fn.name, f["n"], f["t"]))
     chk.floor(rule, 2, n)
+
+
+def _markpath_rule(chk, prog):
+    """C01-MARK asks that a mark function mentions every reference-bearing field of its record.  Mentioning is not
+    enough when the function can leave early: an exit taken after some of the fields were visited and before the
+    others skips those for this object for good (its mark bit is already set, so no later visit comes back)."""
+    rule = "C01-MARKPATH"
+    chk.rule(rule, "a mark function that has started visiting the reference-bearing fields of its record reaches no return before it has visited all of them")
+    n = 0
+    for rec, (mname, exc) in sorted(MARK_TABLE.items()):
+        r = prog.records.get(rec)
+        fn = prog.func(mname, "gc.c") or prog.func(mname, "ev.c")
+        if r is None or fn is None:
+            continue
+        refs = set(f["n"] for f in r["fields"] if ref_bearing(f) and f["n"] not in exc)
+        if rec == "JanetStackFrame":
+            continue        # visited inside the frame loop of janet_mark_fiber; the fiber's own fields carry the clause
+        every = set(x.field for x in fn.nodes if x.k == "mem" and x.rec == rec and x.field in refs)
+        if len(every) < 2:
+            continue
+        n += 1
+        chk.instance(rule)
+        chk.analysed(fn)
+
+        subject = fn.params[0]["n"] if fn.params else None
+
+        def transfer(st, x, rec=rec, refs=refs, subject=subject):
+            for y in x.walk():
+                if y.k == "mem" and y.rec == rec and y.field in refs:
+                    st = st | {y.field}
+            if x.k == "asg" and x.op == "=" and is_ref(x.kids[0]) and x.kids[0].name == subject:
+                return frozenset()      # manual tail recursion: the function goes on with another object
+            return st
+        IN, OUT, T = flow.forward_paths(fn, frozenset(), transfer, cap=64)
+        bad = None
+        for b, kind in flow.exits(fn):
+            if kind != "return" or b.id not in OUT:
+                continue
+            # only an explicit `return` counts: falling off the end after loops that ran zero times or a branch on the
+            # kind of object is the function's normal way out
+            if not any(x.k == "return" for e in b.elems for x in [e]) and not (b.term is not None and b.term.k == "return"):
+                continue
+            for ps in OUT[b.id]:
+                if ps and (every - ps):
+                    bad = (b, sorted(every - ps), sorted(ps))
+        if bad:
+            b, missing, seen = bad
+            last = b.elems[-1] if b.elems else fn
+            chk.violation(rule, fn.tu.name, fn.name, "%s:%s" % (rec, ",".join(missing)), last.loc,
+                          "%s can return (near %s) after visiting %s of a %s but before visiting %s: the object's mark bit is set, "
+                          "so what those fields refer to is never visited for it and is freed while the object still points at it" % (
+                              fn.name, last.loc, ", ".join(seen), rec, ", ".join(missing)))
+        else:
+            chk.ok(rule, "%s: every return after the first field visit has passed all of {%s}" % (fn.name, ",".join(sorted(every))))
+    chk.floor(rule, 4, n)
+
+
+def _stacklocal_rule(chk, prog, S):
+    """Outside run_vm (C01-STALE) and the cfunction argv (C01-ARGV), code that walks a fiber's frames keeps local
+    pointers into fiber->data.  Such a pointer is dead after any call that can re-enter the interpreter (janet_eprintf
+    with :err bound to a function, janet_call) - the code that runs can grow that stack - until it is derived again.
+    (Growth through the fiber API on the same fiber variable is C01-FIBERPTR.)"""
+    rule = "C01-STACKLOCAL"
+    chk.rule(rule, "a local pointer derived from fiber->data is not used after a call that can reallocate a fiber stack without being derived again")
+    grow = set()
+    cg = S.cg if hasattr(S, "cg") else None
+
+    def derived(e):
+        return any(y.k == "mem" and y.field == "data" and y.rec == "JanetFiber" for y in e.walk())
+    n = 0
+    for fn in prog.all_funcs():
+        if fn.name in ("run_vm", "janet_fiber_setcapacity"):
+            continue
+        locs = {}
+        for x in fn.nodes:
+            if x.k == "vardecl" and x.kids and "*" in (x.t or "") and derived(x.kids[0]):
+                locs.setdefault(x.name, x)
+            if x.k == "asg" and x.op == "=" and is_ref(x.kids[0]) and derived(x.kids[1]) and "*" in (x.kids[0].t or "*"):
+                locs.setdefault(x.kids[0].name, x)
+        if not locs:
+            continue
+        relocs = [c for c in fn.nodes if c.k == "call" and S.call_in(fn, c, S.may_relocate)]
+        for v, site in sorted(locs.items()):
+            n += 1
+            chk.instance(rule)
+            chk.analysed(fn)
+            if not relocs:
+                chk.ok(rule, "%s: `%s` - no call in the function can move a fiber stack" % (fn.name, v))
+                continue
+
+            def transfer(st, x, v=v):
+                if x.k == "vardecl" and x.name == v:
+                    return frozenset()
+                if x.k == "asg" and x.op == "=" and is_ref(x.kids[0]) and x.kids[0].name == v:
+                    return frozenset()
+                if x.k == "call" and x in relocs:
+                    return frozenset([x.id])
+                return st
+            IN, OUT = flow.forward(fn, frozenset(), transfer, lambda a, b: a | b)
+            bad = None
+            for x, st in flow.states_at(fn, IN, transfer):
+                if st and x.k == "ref" and x.name == v and bad is None:
+                    p_ = x.parent
+                    if p_ is not None and p_.k == "asg" and p_.op == "=" and p_.kids[0] is x:
+                        continue
+                    bad = (x, st)
+            if bad is None:
+                chk.ok(rule, "%s: `%s` is derived again before every use that follows a stack-moving call" % (fn.name, v))
+            else:
+                x, st = bad
+                call = next((c for c in relocs if c.id in st), relocs[0])
+                chk.violation(rule, fn.tu.name, fn.name, v, x.loc,
+                              "`%s` points into a fiber's stack (%s at %s) and is used at %s after `%s`, which can reallocate that "
+                              "stack: the use reads or writes freed memory" % (v, site.text()[:50], site.loc, x.loc, call.text()[:50]))
+    chk.floor(rule, 8, n)
